@@ -305,6 +305,19 @@ def h_branch_order(a: int, b: int, c: int, d: int, e: int, f: int, shard=None) -
         raise Violation("totality :: int vs str items are incomparable")
     if not (x < w):
         raise Violation("int-before-str :: a numeric item must sort before a string item")
+    # component lists are compared lexicographically: a name whose components are a proper prefix of another name's
+    # (release/10.250 and its patch branch release/10.250.1) sorts first, whatever the extra component is
+    p3 = BranchName("p3")
+    p3._sort_items = ["origin", "release", a, b, e]
+    if not (x < p3) or (p3 < x) or (x == p3) or not (p3 > x):
+        raise Violation(f"prefix-first :: release/{a}.{b} must sort before release/{a}.{b}.{e}")
+    lt3 = (a, b, e) < (c, d, f)
+    q3 = BranchName("q3")
+    q3._sort_items = ["origin", "release", c, d, f]
+    if (p3 < q3) != lt3:
+        raise Violation(f"order3 :: release/{a}.{b}.{e} vs release/{c}.{d}.{f}: comparison disagrees with numeric order")
+    if (p3 < y) != ((a, b) < (c, d)) or (y < p3) != ((c, d) <= (a, b)):
+        raise Violation(f"order-mixed :: release/{a}.{b}.{e} vs release/{c}.{d}: comparison disagrees with lexicographic order of the components")
 
 
 def h_branch_parse(a: int, b: int, shard=None) -> None:
@@ -318,6 +331,14 @@ def h_branch_parse(a: int, b: int, shard=None) -> None:
             y = BranchName(f"origin/release/{c}.{d}")
             if (x < y) != ((a, b) < (c, d)) or (x == y) != ((a, b) == (c, d)):
                 raise Violation(f"parse-order :: release/{a}.{b} vs release/{c}.{d}")
+        x = BranchName(f"origin/release/{a}.{b}")
+        for tail in (".0", ".1", "-1", ".10", "_rc"):
+            y = BranchName(f"origin/release/{a}.{b}{tail}")
+            if not (x < y) or (y < x):
+                raise Violation(f"parse-prefix-first :: release/{a}.{b} must sort before release/{a}.{b}{tail}")
+        srt = sorted([BranchName(n) for n in (f"origin/release/{a}.{b}.1", f"origin/release/{a}.{b + 1}", f"origin/release/{a}.{b}")])
+        if [s_.name for s_ in srt] != [f"origin/release/{a}.{b}", f"origin/release/{a}.{b}.1", f"origin/release/{a}.{b + 1}"]:
+            raise Violation(f"parse-sort :: sorted() gives {[s_.name for s_ in srt]}")
 
 
 def jobs(tier: str) -> List[Job]:
